@@ -124,6 +124,13 @@ class C12(Prop):
                                 v['cfg']['ports'] = {'psts': {'w': 'none'}, 'pmts': {'w': 'all'}, 'rsts': {'w': 'none'}, 'rmts': {'w': 'all'}}
                             steps.append((k, v))
                     break
+            # a build that fails LATE (after the Dezyne elements were put together), then the valid build of the same
+            # model: whatever the failed build had noted on the way must not reach the next result
+            for mi, (base, variants) in enumerate(models):
+                late = [v for v in variants if v.get('fault') == 'formal-type-not-an-extern']
+                if late and rng.random() < (0.9 if base['cfg'].get('multiclient') else 0.4):
+                    steps.append((mi, late[0]))
+                    steps.append((mi, variants[0]))
             for _s in range(rng.randint(2, 12)):
                 mi = rng.randrange(len(models))
                 steps.append((mi, rng.choice(models[mi][1])))
